@@ -579,6 +579,25 @@ fn random_case(rng: &mut Rng, ps: u64) -> Case {
         }
         present.push(k);
     }
+    // the empty byte string is a legal key and a legal bucket name: it sorts before everything
+    match rng.below(6) {
+        0 => {
+            ops.push(Op::Put { h: 0, k: K::lit(b""), v: V { tag: 5, len: vlen.min(40) }, how: How::Slice, vhow: How::Slice });
+            present.push(K::lit(b""));
+        }
+        1 => {
+            ops.push(Op::Create { h: 0, k: K::lit(b""), how: How::Slice });
+            present.push(K::lit(b""));
+        }
+        _ => {}
+    }
+    // keys that are prefixes / extensions of each other
+    if rng.chance(1, 4) {
+        for ext in [&b"0"[..], b"00", b"00\x00", b"00\x00\x00", b"01", b"0\xff"] {
+            ops.push(Op::Put { h: 0, k: K::lit(ext), v: V { tag: 6, len: 3 }, how: How::Slice, vhow: How::Slice });
+            present.push(K::lit(ext));
+        }
+    }
     let mut mods = Vec::new();
     let writable = rng.chance(2, 3);
     if writable {
@@ -631,7 +650,7 @@ pub fn run(ctx: &Ctx) -> Shard {
             }
         }
         let mut rng = Rng::new(ctx.shard_seed());
-        let n_random = ctx.scale(if ctx.thorough() { 1200 } else { 40 });
+        let n_random = ctx.scale(if ctx.thorough() { 1200 } else { 200 });
         for _ in 0..n_random {
             cases.push(random_case(&mut rng, ps));
         }
